@@ -282,7 +282,7 @@ pub fn check_case<A: Alphabet>(case: &Case, cfgs_: &[Cfg], light: bool) -> Outco
 // matrices
 // ---------------------------------------------------------------------------
 
-pub const MATRIX_KINDS: [&str; 8] = ["enc", "int", "logodds", "neginf_row", "big", "tiny", "finite_wild", "subnormal"];
+pub const MATRIX_KINDS: [&str; 9] = ["enc", "int", "logodds", "neginf_row", "big", "tiny", "finite_wild", "subnormal", "huge_alt"];
 
 /// Build matrix `kind` of width `m` for alphabet size `k`. `win` selects which 4(8)-row window of an
 /// "enc" matrix is active.
@@ -332,6 +332,15 @@ pub fn make_matrix(kind: &str, m: usize, k: usize, win: usize) -> Vec<Vec<f32>> 
         // with flush-to-zero / denormals-are-zero would return 0
         "subnormal" => (0..m)
             .map(|j| (0..k).map(|s| if s == k - 1 { ninf } else { (((j * 3 + s * 5) % 13) as f32 - 6.0) * f32::from_bits(0x0000_0200) }).collect())
+            .collect(),
+        // cells near f32::MAX with alternating signs along the rows: every left-to-right prefix sum stays finite
+        // (|prefix| <= 3.1e38), but adding the even and the odd rows separately overflows to infinity
+        "huge_alt" => (0..m)
+            .map(|j| {
+                (0..k)
+                    .map(|s| if s == k - 1 { ninf } else { (if j % 2 == 0 { 1.0 } else { -1.0 }) * (3.0e38 - (s as f32) * 1.0e36) })
+                    .collect()
+            })
             .collect(),
         "finite_wild" => (0..m)
             .map(|j| (0..k).map(|s| ((j * 2 + s * 7) % 9) as f32 * 0.25 - 1.0).collect())
@@ -572,7 +581,7 @@ fn run_small<A: Alphabet>(alpha: &'static str, ctx: &mut Ctx, rep: &mut Report, 
 
 use crate::cfgs::{HOp, HSnap};
 
-const REUSE_LENS: [usize; 5] = [70, 100, 120, 0, 5];
+const REUSE_LENS: [usize; 6] = [70, 100, 120, 0, 5, 200];
 const REUSE_WIDTHS: [usize; 3] = [1, 3, 8];
 
 fn reuse_seq(k: usize) -> Vec<u8> {
@@ -580,7 +589,7 @@ fn reuse_seq(k: usize) -> Vec<u8> {
     (0..l).map(|i| if i % 23 == 22 { 4 } else { ((i * i + 3 * i * (k + 1) + k) % 4) as u8 }).collect()
 }
 
-fn reuse_ops() -> Vec<HOp> {
+pub fn reuse_ops() -> Vec<HOp> {
     let mut v = Vec::new();
     for k in 0..REUSE_LENS.len() {
         v.push(HOp::Stripe(k));
@@ -614,7 +623,7 @@ fn hop_from_json(v: &Value) -> HOp {
     }
 }
 
-fn reuse_json(cfg: Cfg, hist: &[HOp]) -> Value {
+pub fn reuse_json(cfg: Cfg, hist: &[HOp]) -> Value {
     json!({
         "kind": "reuse",
         "cfg": cfg.name(),
@@ -665,7 +674,7 @@ fn judge_reuse(snap: &HSnap, seqs: &[Vec<u8>], mats: &[Vec<Vec<f32>>], c: usize)
     None
 }
 
-fn check_reuse(cfg: Cfg, hist: &[HOp], seqs: &[Vec<u8>], mats: &[Vec<Vec<f32>>]) -> Option<(String, String)> {
+pub fn check_reuse(cfg: Cfg, hist: &[HOp], seqs: &[Vec<u8>], mats: &[Vec<Vec<f32>>]) -> Option<(String, String)> {
     let syms: Vec<Vec<<Dna as Alphabet>::Symbol>> = seqs.iter().map(|s| model::to_symbols::<Dna>(s)).collect();
     let pssms: Vec<_> = mats.iter().map(|m| model::scoring::<Dna>(m)).collect();
     match catch(|| cfgs::history_f32::<Dna>(cfg, &syms, &pssms, hist)) {
@@ -675,6 +684,11 @@ fn check_reuse(cfg: Cfg, hist: &[HOp], seqs: &[Vec<u8>], mats: &[Vec<Vec<f32>>])
     }
 }
 
+/// The fixed data of the `reuse` histories (sequences as ranks, matrices).
+pub fn reuse_data() -> (Vec<Vec<u8>>, Vec<Vec<Vec<f32>>>) {
+    ((0..REUSE_LENS.len()).map(reuse_seq).collect(), REUSE_WIDTHS.iter().map(|&m| make_matrix("enc", m, 5, 0)).collect())
+}
+
 fn run_reuse(ctx: &mut Ctx, rep: &mut Report, base: &mut u64) {
     let depth = if ctx.quick() { 5 } else { 6 };
     let ops = reuse_ops();
@@ -682,7 +696,7 @@ fn run_reuse(ctx: &mut Ctx, rep: &mut Report, base: &mut u64) {
         "reuse",
         &format!(
             "histories on ONE StripedSequence and ONE StripedScores buffer (the normal way of scanning several sequences with several motifs): initial state stripe(sequence of length 70) + empty score buffer; \
-             operation alphabet ({} ops) = stripe_into a sequence of length {{70,100,120,0,5}} (100 and 120 give the same row count on 32 lanes; 0 and 5 are shorter than the widest motif), configure for a motif of width {{1,3,8}}, configure+score_into for each width, configure+score_rows_into(1..R); \
+             operation alphabet ({} ops) = stripe_into a sequence of length {{70,100,120,0,5,200}} (100 and 120 give the same row count on 32 lanes; 0 and 5 are shorter than the widest motif; 5 then 200 shrinks the score buffer and grows it past its first size), configure for a motif of width {{1,3,8}}, configure+score_into for each width, configure+score_rows_into(1..R); \
              ALL operation sequences of length 1..={} ending in a scoring operation, each re-executed on fresh objects, under all 14 configurations (DNA, window-encoding matrices: injective in the window content, exact sums); \
              oracle on the last operation: row count, max_index = L-M+1, unstripe/iter lengths, every valid cell = the exact sum for the CURRENT sequence and motif",
             ops.len(),
@@ -735,7 +749,7 @@ pub fn run(ctx: &mut Ctx, rep: &mut Report) {
         rep.space(
             "shapes",
             "product: alphabet {DNA,protein} x L (every 0..=200 quick / 0..=1100 thorough, plus +-2 around 992,1024,1056,2048,8160,8192,8224) x M ({1,2,3,5,8,34} quick; 1..=12,16,33,34,40 thorough) \
-             x matrix kind {window-encoding (injective base-(K+1) code, every 8(4)-row window), integer, log-odds, -inf rows, 1e6, 1e-6, finite wildcard, subnormal cells (multiples of 2^-140)} x content (digit patterns p<ceil(log_{K-1}(L+1)), wildcard-injected variants); \
+             x matrix kind {window-encoding (injective base-(K+1) code, every 8(4)-row window), integer, log-odds, -inf rows, 1e6, 1e-6, finite wildcard, subnormal cells (multiples of 2^-140), cells of +-3e38 alternating in sign along the rows (finite left-to-right, overflowing when re-associated)} x content (digit patterns p<ceil(log_{K-1}(L+1)), wildcard-injected variants); \
              plus extra look-ahead rows and hand-built striped sequences with 1/2/5 spare sequence rows (StripedSequence::new); on every point all 14 configurations {generic U1,U2,U4,U16,U32; sse2 U16,U32; avx2 U32; dispatcher arms generic/sse2/avx2} x row sub-range menu (all a<=b when R<=5, boundary menu otherwise) are run; \
              oracle: exact f64 sum per position within the recursive-summation bound, row counts, max_index, unstripe/Index/iter, score_position, ScoringMatrix::score, == across configurations. \
              evaluations = kernel invocations; non-trivial = L>=M and some non-wildcard symbol",
